@@ -534,6 +534,9 @@ class Ops(Suite):
             out.append((f"gtosubtree {a}", want))
         elif case["op"]["op"] in ("cutenter", "cutdepth", "cutleave"):
             out.append((f"g{k} {a}", want))
+        elif case["op"]["op"] in ("cuttype", "cutorder"):
+            # CutByType.__call__ (its `leave` closure over the `removals` set) and CutByFurcationOrder (its `_enter` handed to the generated cut_tree)
+            out.append((f"g{k} {a}", want))
         elif case["op"]["op"] == "cutattr":
             out.append((f"{'gcutenter' if op['form'] == 'enter' else 'gcutleaveset'} {a}", want))
         return out
